@@ -464,6 +464,7 @@ func (s *Sim) classifyLocked() {
 		if t.State == StRunning {
 			// not parked after quiescence: natively blocked
 			t.State = StBlocked
+			s.Probes["blocked:"+strings.TrimRight(t.Name, "0123456789")]++
 		}
 	}
 }
